@@ -9,7 +9,7 @@
                  under h) and Eq";  slot key_eq = the specification: a finite map on ==-classes. *)
 From Coq Require Import ZArith NArith QArith List Bool Permutation.
 From NV Require Import Common.Outcome Dict.KeyEq Dict.KeyHash Dict.DictMap
-  Dict.Num_proofs Dict.KeyEq_proofs Dict.DictMap_proofs.
+  Dict.Num_proofs Dict.KeyEq_proofs Dict.DictMap_proofs Dict.Bucket_proofs.
 Import ListNotations.
 
 (* == on keys is an equivalence relation (NaN equal to itself), at every nesting depth *)
@@ -19,6 +19,12 @@ Theorem C09_key_eq_equivalence :
   (forall a b c, wf_key a -> wf_key b -> wf_key c -> key_eq a b = true -> key_eq b c = true -> key_eq a c = true).
 Proof. exact (conj key_eq_refl (conj key_eq_sym key_eq_trans)). Qed.
 Print Assumptions C09_key_eq_equivalence.
+
+(* Eq for ObjKey exactly as written (its nested-dictionary arm uses the hashed lookup b.get(k)) is key_eq *)
+Theorem C09_eq_as_written_is_key_eq : forall (H : list token -> N) (a b : key),
+  wf_key a -> wf_key b -> key_eq_hm (key_hash H) a b = key_eq a b.
+Proof. exact key_eq_hm_is_key_eq. Qed.
+Print Assumptions C09_eq_as_written_is_key_eq.
 
 (* numbers of any level are equal as keys exactly when they have the same exact value (real and imaginary part:
    an infinity or a rational in lowest terms), all NaN-containing numbers forming one class *)
@@ -127,6 +133,22 @@ Theorem C09_history_keeps_one_entry_per_class : forall (V : Type) (vnull : V) (v
   let s' := fst (snd (run vnull vadd veq key_eq d ops)) in wf_store s' /\ nodupk key_eq s'.
 Proof. exact run_inv. Qed.
 Print Assumptions C09_history_keeps_one_entry_per_class.
+
+(* the literal bucket structure (buckets labelled by Hasher write sequences, Eq inside a bucket; bwf: every entry sits
+   in the bucket of its own write sequence and labels are distinct) is the slot model, for any hash function: a lookup is
+   the slot lookup over its entries; insert and remove keep it well formed and change the entries as the slot model does *)
+Theorem C09_bucket_structure_is_slot_model : forall (hash : key -> list token) (V : Type) (m : bmap V) (k : key) (v : V),
+  bwf hash m ->
+  bfind hash k m = sfind (hm_slot hash) k (bentries m) /\
+  (bwf hash (bset hash k v m) /\ Permutation (bentries (bset hash k v m)) (sset (hm_slot hash) k v (bentries m))) /\
+  (bwf hash (bremove hash k m) /\ Permutation (bentries (bremove hash k m)) (sremove (hm_slot hash) k (bentries m))).
+Proof.
+  intros hash V m k v Hw.
+  exact (conj (bfind_is_sfind hash m k Hw)
+          (conj (conj (bwf_bset hash m k v Hw) (bentries_bset hash m k v Hw))
+                (conj (bwf_bremove hash m k Hw) (bentries_bremove hash m k Hw)))).
+Qed.
+Print Assumptions C09_bucket_structure_is_slot_model.
 
 (* non-vacuity: the hypotheses are met by ordinary keys of different numeric levels, nested, and the functions compute *)
 Example C09_nonvacuous :
